@@ -16,20 +16,60 @@ from .common import Reporter, Scratch, ToolError, log, tlc, write_cfg
 from .e2e import Case
 
 T0 = gen.BASE
+import struct
+
+# abstract time value t in 1..3 -> seconds; the acct_v3 layout stores an unsigned 32-bit time: its largest value is
+# placed beyond 2^31 (2038) so that signed/unsigned handling of the sort key is exercised
+SECS = {"utmp": {1: T0 + 10, 2: T0 + 20, 3: T0 + 30}, "lastlog": {1: T0 + 10, 2: T0 + 20, 3: T0 + 30},
+        "acct": {1: T0 + 10, 2: T0 + 20, 3: 2**31 + 5}}
 
 
-def rec_bytes(i, t, usec=0):
-    if t == 0:
-        return b"\0" * gen.UTMP_SZ
-    return gen.utmp_record(7, 1000 + i, b"pts/%d" % i, b"t%d" % (i % 100), b"user%d" % i, b"host%d.example" % i,
-                           T0 + 10 * t, usec, session=500 + i)
+def rec_bytes(i, t, usec=0, layout="utmp"):
+    if layout == "utmp":
+        if t == 0:
+            return b"\0" * gen.UTMP_SZ
+        return gen.utmp_record(7, 1000 + i, b"pts/%d" % i, b"t%d" % (i % 100), b"user%d" % i, b"host%d.example" % i,
+                               SECS["utmp"].get(t, T0 + 10 * t), usec, session=500 + i)
+    if layout == "acct":
+        if t == 0:
+            return b"\0" * 64
+        comm = (b"cmd%d" % i)[:16]
+        return struct.pack("<BBHIIIIIIf8H", 0x02, 3, 0, 0, 1000 + i, 2000 + i, 3000 + i, 1, SECS["acct"].get(t, T0 + 10 * t), 1.5,
+                           *([0] * 8)) + comm + b"\0" * (16 - len(comm))
+    if layout == "lastlog":
+        if t == 0:
+            return b"\0" * 292
+        line, host = b"pts/%d" % i, b"host%d.example" % i
+        return struct.pack("<i", SECS["lastlog"].get(t, T0 + 10 * t)) + line + b"\0" * (32 - len(line)) + host + b"\0" * (256 - len(host))
+    raise ValueError(layout)
 
 
-LINE_RE = re.compile(rb"^ut_type USER_PROCESS ut_pid (\d+) ut_line '([^']*)' ut_id '([^']*)' ut_user '([^']*)' "
-                     rb"ut_host '([^']*)' e_termination 0 e_exit 0 ut_session '(\d+)' ut_xtime (\d+)\.(\d+) ut_addr 0\.0\.0\.0$")
+FILENAME = {"utmp": "wtmp", "acct": "pacct", "lastlog": "lastlog"}
+LINE_RE = {
+    "utmp": re.compile(rb"^ut_type USER_PROCESS ut_pid (\d+) ut_line '([^']*)' ut_id '([^']*)' ut_user '([^']*)' "
+                       rb"ut_host '([^']*)' e_termination 0 e_exit 0 ut_session '(\d+)' ut_xtime (\d+)\.(\d+) ut_addr 0\.0\.0\.0$"),
+    "acct": re.compile(rb"^ac_flag 0b0010 \(ASU\) ac_version 3 ac_tty 0 ac_exitcode 0 ac_uid (\d+) ac_gid (\d+) ac_pid (\d+) ac_ppid 1 "
+                       rb"ac_btime (\d+) ac_etime 1\.5 ac_utime 0 ac_stime 0 ac_mem 0 ac_io 0 ac_rw 0 ac_minflt 0 ac_majflt 0 ac_swaps 0 "
+                       rb"ac_comm '([^']*)'$"),
+    "lastlog": re.compile(rb"^ll_time (\d+) ll_line 'pts/(\d+)' ll_host 'host(\d+)\.example'$"),
+}
 
 
-def parse_records(out):
+def line_index(layout, m):
+    """record index named by a parsed line, or None when fields of different records are mixed"""
+    if layout == "utmp":
+        i = int(m.group(1)) - 1000
+        ok = (m.group(2), m.group(4), m.group(5), int(m.group(6))) == (b"pts/%d" % i, b"user%d" % i, b"host%d.example" % i, 500 + i)
+    elif layout == "acct":
+        i = int(m.group(1)) - 1000
+        ok = (int(m.group(2)), int(m.group(3)), m.group(5)) == (2000 + i, 3000 + i, b"cmd%d" % i)
+    else:
+        i = int(m.group(2))
+        ok = int(m.group(3)) == i
+    return i if ok else None
+
+
+def parse_records(out, layout="utmp"):
     """stdout -> list of record indices, or None with a reason"""
     idxs = []
     extra = []
@@ -42,12 +82,11 @@ def parse_records(out):
             extra.append("NUL")
         if not core:
             continue
-        m = LINE_RE.match(core)
+        m = LINE_RE[layout].match(core)
         if not m:
             return None, "unparsable line %r" % ln[:120]
-        i = int(m.group(1)) - 1000
-        if (m.group(2), m.group(4), m.group(5), int(m.group(6))) != (b"pts/%d" % i, b"user%d" % i,
-                                                                       b"host%d.example" % i, 500 + i):
+        i = line_index(layout, m)
+        if i is None:
             return None, "fields of different records mixed in line %r" % ln[:160]
         idxs.append(i)
     if out.endswith(b"\0"):
@@ -66,8 +105,8 @@ def measure_key(sc):
     return "time_fo" if sorted(idxs) == [1, 2] else "time"
 
 
-def cli(t, usec=0):
-    return gen.fmt_ts(T0 + 10 * t, usec * 1000, None, 6)
+def cli(t, usec=0, layout="utmp"):
+    return gen.fmt_ts(SECS[layout][t], usec * 1000, None, 6)
 
 
 def run(pid, tier, seed):
@@ -101,9 +140,11 @@ def run(pid, tier, seed):
         for k, (_, recs, A, B, emit) in enumerate(insts):
             if not recs or all(t == 0 for t in recs):
                 continue
-            blob = b"".join(rec_bytes(i + 1, t, usec=(7 if t == 2 else 0)) for i, t in enumerate(recs))
+            layout = ("utmp", "acct", "lastlog")[k % 3]
+            us = (lambda t: 7 if (t == 2 and layout == "utmp") else 0)
+            blob = b"".join(rec_bytes(i + 1, t, usec=us(t), layout=layout) for i, t in enumerate(recs))
             cont = rng.choice(conts)
-            name = "wtmp"
+            name = FILENAME[layout]
             if cont == "plain":
                 files, arg = {name: blob}, name
             elif cont == "gz":
@@ -118,11 +159,11 @@ def run(pid, tier, seed):
                 files, arg = {"a.tar": gen.tar_bytes([(name, blob)])}, "a.tar"
             argv = ["--color", "never", "--blocksz", str(rng.choice([64, 100, 383, 384, 385, 768, 4096, 65536]))]
             if A != 0:
-                argv += ["-a", cli(A, 7 if A == 2 else 0)]
+                argv += ["-a", cli(A, us(A), layout)]
             if B != 99:
-                argv += ["-b", cli(B, 7 if B == 2 else 0)]
+                argv += ["-b", cli(B, us(B), layout)]
             cases.append((Case(files, argv + [arg], None, note={"recs": recs, "A": A, "B": B, "emit": emit,
-                                                               "container": cont}), recs, emit))
+                                                               "container": cont, "layout": layout}), recs, emit))
 
         def do(ic):
             i, (case, recs, emit) = ic
@@ -142,9 +183,9 @@ def run(pid, tier, seed):
             if rr.crashed:
                 rep.violation("crash", "rc=%s %r" % (rr.rc, rr.err[-200:]), case.replay_record(rr))
                 continue
-            idxs, extra = parse_records(rr.out)
+            idxs, extra = parse_records(rr.out, case.note["layout"])
             if idxs is None:
-                rep.violation("unparsable-output", extra, case.replay_record(rr))
+                rep.violation("unparsable-output:%s" % case.note["layout"], extra, case.replay_record(rr))
                 continue
             if idxs != list(emit):
                 lost = sorted(set(emit) - set(idxs))
@@ -155,8 +196,8 @@ def run(pid, tier, seed):
                 else:
                     sig = "selection"
                 reproduced.add(sig)
-                rep.violation(sig, "records %s (times %s, window [%s,%s], %s): printed %s, Emit = %s"
-                              % (list(range(1, len(recs) + 1)), recs, case.note["A"], case.note["B"],
+                rep.violation(sig, "%s records %s (times %s, window [%s,%s], %s): printed %s, Emit = %s"
+                              % (case.note["layout"], list(range(1, len(recs) + 1)), recs, case.note["A"], case.note["B"],
                                  case.note["container"], idxs, list(emit)), case.replay_record(rr))
             elif extra:
                 rep.violation("nul-after-record", "a NUL byte is written to stdout after each record's newline",
@@ -173,7 +214,8 @@ def run(pid, tier, seed):
                         "samples": samples or [{"note": "no tie sample passed"}], "key_measured": key,
                         "model_prediction": predicted, "exhaustive": tier == "thorough",
                         "checker_cmd": r2.cmd}
-        rep.assumptions = ["Linux x86_64 struct utmp (384 bytes) synthesised from the C layout; other platform layouts are "
-                           "exercised only through the repository's sample files in C05/C07",
+        rep.assumptions = ["Linux x86_64 struct utmp (384 bytes), struct acct_v3 (64 bytes, unsigned 32-bit time incl. a value beyond "
+                           "2^31) and struct lastlog (292 bytes) synthesised from the C layouts; BSD layouts are exercised only through "
+                           "the repository's sample files in C05/C07",
                            "null record = all-zero bytes", "rendering of a record line taken from the unchanged tree"]
     return rep.finish()
